@@ -8,6 +8,7 @@ func nd_nevents() int            { return 0 }
 func nd_event_kind(i int) string { return "" }
 func nd_event_str(i int) string  { return "" }
 func nd_event_str2(i int) string { return "" }
+func nd_event_int(i int) int     { return 0 }
 
 const destDir = "/d/e"
 
@@ -93,8 +94,18 @@ func checkEvents(err error, idConfined, idRejects, idAccepts string) {
 		}
 		if k == "Symlink" || k == "Link" {
 			// a link whose target leaves the destination lets later entries
-			// escape through it: treated as a created path outside
-			nd_assert(false, idConfined+".link")
+			// escape through it: the target, resolved from the link's own
+			// directory (or absolute), must stay inside as well
+			nw, old := nd_event_str(i), nd_event_str2(i)
+			tgt := old
+			if len(old) == 0 || old[0] != '/' {
+				d := len(nw)
+				for d > 0 && nw[d-1] != '/' {
+					d--
+				}
+				tgt = nw[:d] + old
+			}
+			nd_assert(under(destDir, tgt), idConfined+".link")
 		}
 		if k == "tar.Next" || k == "zip.File" {
 			nm := nd_event_str(i)
@@ -103,6 +114,9 @@ func checkEvents(err error, idConfined, idRejects, idAccepts string) {
 			}
 			if !inside(nm) {
 				benign = false // resolves to an ancestor of dest: accepting or rejecting are both fine
+			}
+			if tf := nd_event_int(i); tf != '0' && tf != '5' {
+				benign = false // only regular files and directories must be recreated
 			}
 			for j := 0; j < len(nm); j++ {
 				if nm[j] == 0 {
